@@ -29,3 +29,32 @@ def specDns (ext : Ext) (basic : List NetRule → Option NetRule) (L : List Rule
       { networkRules := nrs, v4 := hs.filter (·.ip.is4), v6 := hs.filter (!·.ip.is4), matched := !hs.isEmpty }
 
 end UF
+
+namespace UF
+
+/-- The class of the winning rule the property compares: exception? important? -/
+def NetRule.cls (r : NetRule) : Bool × Bool := (r.whitelist, r.important)
+
+/-- Componentwise agreement of two DNS results as the property states it: network rules as a set
+    of texts, `NetworkRule == nil` and its exception/important class, host rules as sets, `matched`. -/
+def DnsResult.Equiv (a b : DnsResult) : Prop :=
+  (∀ t, t ∈ a.networkRules.map (·.text) ↔ t ∈ b.networkRules.map (·.text)) ∧
+  a.networkRule.map NetRule.cls = b.networkRule.map NetRule.cls ∧
+  (∀ h, h ∈ a.v4 ↔ h ∈ b.v4) ∧ (∀ h, h ∈ a.v6 ↔ h ∈ b.v6) ∧
+  a.matched = b.matched
+
+/-- What C02 needs from `GetDNSBasicRule` (C06/C07/C08): on candidate lists drawn from the rules `S`
+    that carry the same set of rule texts it makes the same decision up to the class of the winner. -/
+def BasicRespectsTexts (basic : List NetRule → Option NetRule) (S : List NetRule) : Prop :=
+  ∀ l l' : List NetRule, (∀ r ∈ l, r ∈ S) → (∀ r ∈ l', r ∈ S) →
+    (∀ t, t ∈ l.map (·.text) ↔ t ∈ l'.map (·.text)) →
+    (basic l).map NetRule.cls = (basic l').map NetRule.cls
+
+/-- The host-level network rules of the storage with their indexes (what `NewDNSEngine` offers to
+    its network engine). -/
+def hostLevelNet (L : List (Rule × Idx)) : List (NetRule × Idx) :=
+  L.filterMap fun p => match p.1 with
+    | .net r => if isHostLevel r then some (r, p.2) else none
+    | _ => none
+
+end UF
